@@ -146,7 +146,31 @@ func (w *World) Exec(o *tr.Op) string {
 			f := fields(ma)
 			ctx = ctx.WithConsensusParams(cmtproto.ConsensusParams{Evidence: &cmtproto.EvidenceParams{MaxAgeDuration: time.Duration(i64(f[0])), MaxAgeNumBlocks: i64(f[1])}})
 		}
-		return w.RunHook(ctx, func(ctx sdk.Context) error { return w.Lock.BeginBlocker(ctx) })
+		if o.Str("obs") != "1" {
+			return w.RunHook(ctx, func(ctx sdk.Context) error { return w.Lock.BeginBlocker(ctx) })
+		}
+		// observe who is punished by this hook: validators whose status becomes downgrade / tombstoned
+		statuses := func() map[string]string {
+			m := map[string]string{}
+			_ = w.Lock.Validators.Walk(w.Ctx, nil, func(a sdk.ConsAddress, v lockingtypes.Validator) (bool, error) {
+				m[fmt.Sprintf("%x", []byte(a))] = statusName[v.Status]
+				return false, nil
+			})
+			return m
+		}
+		before := statuses()
+		res := w.RunHook(ctx, func(ctx sdk.Context) error { return w.Lock.BeginBlocker(ctx) })
+		if res != "ok" {
+			return res
+		}
+		var pun []string
+		for a, st := range statuses() {
+			if st != before[a] && (st == "downgrade" || st == "tombstoned") {
+				pun = append(pun, a+"|"+st)
+			}
+		}
+		sort.Strings(pun)
+		return "ok pun=" + tr.StrList(pun)
 	case "hook.lock.end":
 		var ups []abci.ValidatorUpdate
 		res := w.RunHook(w.ctxAt(o), func(ctx sdk.Context) error {
